@@ -1,15 +1,21 @@
 //! C14: output_delay() reports the true alignment delay of the output stream.
 
 use crate::cfg::{Cfg, Degree, Interp, Kernel, Kind};
-use crate::e2::resample_all_pre2;
+use crate::e2::resample_all_full;
 use crate::frame::{Check, JournalFile, Tier};
 use crate::run::Flt;
 use serde_json::{json, Map, Value};
 
 pub struct C14;
 
-fn lattice(tier: Tier) -> Vec<(Cfg, Option<f64>, bool)> {
-    let mut out: Vec<(Cfg, Option<f64>, bool)> = lattice_pre(tier).into_iter().map(|(c, p)| (c, p, false)).collect();
+fn lattice(tier: Tier) -> Vec<(Cfg, Option<f64>, u8)> {
+    let mut out = lattice_a(tier);
+    out.extend(warm_reset_lattice().into_iter().map(|c| (c, None, 2u8)));
+    out
+}
+
+fn lattice_a(tier: Tier) -> Vec<(Cfg, Option<f64>, u8)> {
+    let mut out: Vec<(Cfg, Option<f64>, u8)> = lattice_pre(tier).into_iter().map(|(c, p)| (c, p, 0u8)).collect();
     // one representative per type and direction, preceded by a call that is rejected (short input):
     // the stream that follows must be aligned exactly as if that call had never been made
     let mut rej: Vec<Cfg> = Vec::new();
@@ -31,8 +37,32 @@ fn lattice(tier: Tier) -> Vec<(Cfg, Option<f64>, bool)> {
             rej.push(Cfg::fft(Kind::XX, a, b, chunk, 1));
         }
     }
-    out.extend(rej.into_iter().map(|c| (c, None, true)));
+    out.extend(rej.iter().cloned().map(|c| (c, None, 1u8)));
     out
+}
+
+/// The same representatives, used after a warm-up of three loud chunks (with a changed chunk size
+/// and a pending ramp where available) followed by reset(): mode 2 of an item.
+fn warm_reset_lattice() -> Vec<Cfg> {
+    let mut rej: Vec<Cfg> = Vec::new();
+    for r in [0.7, 2.5] {
+        for kind in [Kind::SI, Kind::SO] {
+            let mut c = Cfg::sinc(kind, r, 2.0, 64, 64, 128, Interp::Cubic, Kernel::Dispatch).with_channels(2);
+            c.f_cutoff = 0.9;
+            rej.push(c);
+        }
+        for kind in [Kind::FI, Kind::FO] {
+            rej.push(Cfg::fast(kind, r, 2.0, 64, Degree::Septic).with_channels(2));
+        }
+    }
+    for (a, b) in [(44100usize, 48000usize), (48000, 44100), (3, 2)] {
+        for chunk in [64usize, 256] {
+            rej.push(Cfg::fft(Kind::XI, a, b, chunk, 1).with_channels(2));
+            rej.push(Cfg::fft(Kind::XO, a, b, chunk, 1).with_channels(2));
+            rej.push(Cfg::fft(Kind::XX, a, b, chunk, 1).with_channels(2));
+        }
+    }
+    rej
 }
 
 fn lattice_pre(_tier: Tier) -> Vec<(Cfg, Option<f64>)> {
@@ -106,7 +136,8 @@ struct Acc {
 }
 
 /// Centroid (of the squared signal) of a Gaussian pulse placed at input frame n0.
-fn one<T: Flt>(acc: &mut Acc, cfg: &Cfg, pre: Option<f64>, rejected_first: bool, n0: usize, journal: Option<&JournalFile>) -> Result<(), String> {
+fn one<T: Flt>(acc: &mut Acc, cfg: &Cfg, pre: Option<f64>, mode: u8, n0: usize, journal: Option<&JournalFile>) -> Result<(), String> {
+    let rejected_first = mode == 1;
     let r = cfg.nominal_ratio() * pre.unwrap_or(1.0);
     if let Some(j) = journal {
         j.write(&cfg.to_json(), &format!("pulse at {}", n0));
@@ -116,7 +147,7 @@ fn one<T: Flt>(acc: &mut Acc, cfg: &Cfg, pre: Option<f64>, rejected_first: bool,
     let block = if cfg.kind.is_fft() { 4 * crate::kf::fft_sizes(cfg).0.max(crate::kf::fft_sizes(cfg).1) } else { 0 };
     let n_in = n0 + margin + 3 * cfg.chunk.max(1) * (1.0f64.max(1.0 / r)) as usize + block + 2000;
     let x: Vec<f64> = (0..n_in).map(|n| (-0.5 * ((n as f64 - n0 as f64) / sigma).powi(2)).exp()).collect();
-    let s = resample_all_pre2::<T>(cfg, &x, pre, rejected_first)?;
+    let s = resample_all_full::<T>(cfg, &x, pre, false, rejected_first, if mode == 2 { 3 } else { 0 })?;
     acc.evals += 1;
     if let Some((call, value)) = s.delay_changed {
         acc.outcomes.insert(format!("{}:delay-changes", cfg.kind.name()));
@@ -129,7 +160,7 @@ fn one<T: Flt>(acc: &mut Acc, cfg: &Cfg, pre: Option<f64>, rejected_first: bool,
         m0 += y * y;
         m1 += y * y * k as f64;
     }
-    let point = format!("T={} pulse at input frame {} (sigma {:.1}){}", T::NAME, n0, sigma, pre.map(|x| format!(", after set_resample_ratio_relative({}, false) on the fresh resampler", x)).unwrap_or_default() + if rejected_first { ", after one rejected call (short input)" } else { "" });
+    let point = format!("T={} pulse at input frame {} (sigma {:.1}){}", T::NAME, n0, sigma, pre.map(|x| format!(", after set_resample_ratio_relative({}, false) on the fresh resampler", x)).unwrap_or_default() + if rejected_first { ", after one rejected call (short input)" } else if mode == 2 { ", after three loud warm-up chunks and reset()" } else { "" });
     if m0 < 1e-6 {
         acc.outcomes.insert(format!("{}:no-pulse", cfg.kind.name()));
         acc.found.push(json!({"prop": "C14", "sig": "pulse-missing", "detail": format!("the pulse does not appear in {} output frames", s.out.len()), "cfg": cfg.to_json(), "history": "", "point": point}));
@@ -228,7 +259,8 @@ impl Check for C14 {
         lattice(tier).len()
     }
     fn run_item(&self, tier: Tier, idx: usize, journal: Option<&JournalFile>) -> Result<Value, String> {
-        let (cfg, pre, rejected_first) = lattice(tier).into_iter().nth(idx).ok_or("no item")?;
+        let (cfg, pre, mode) = lattice(tier).into_iter().nth(idx).ok_or("no item")?;
+        let rejected_first = mode != 0;
         let mut acc = Acc { evals: 0, nontrivial: 0, found: vec![], outcomes: Default::default(), worst: 0.0 };
         let scale = (1.0f64).max(1.0 / (cfg.nominal_ratio() * pre.unwrap_or(1.0))) as usize;
         let base = 300 * scale + 2 * cfg.filter_len();
@@ -241,16 +273,16 @@ impl Check for C14 {
             positions.extend([base + 2, base + 3, base + 5, base + 11, base + 137 * scale, base + 1501 * scale]);
         }
         for n0 in positions {
-            one::<f64>(&mut acc, &cfg, pre, rejected_first, n0, journal)?;
+            one::<f64>(&mut acc, &cfg, pre, mode, n0, journal)?;
             if tier == Tier::Thorough {
-                one::<f32>(&mut acc, &cfg, pre, rejected_first, n0, journal)?;
+                one::<f32>(&mut acc, &cfg, pre, mode, n0, journal)?;
             }
         }
         if !rejected_first {
             recipe(&mut acc, &cfg, pre)?;
         }
         Ok(json!({
-            "label": format!("{}{}", cfg.short(), pre.map(|x| format!(" rel {}", x)).unwrap_or_default() + if rejected_first { " after a rejected call" } else { "" }), "evaluations": acc.evals, "nontrivial": acc.nontrivial,
+            "label": format!("{}{}", cfg.short(), pre.map(|x| format!(" rel {}", x)).unwrap_or_default() + match mode { 1 => " after a rejected call", 2 => " after warm-up and reset", _ => "" }), "evaluations": acc.evals, "nontrivial": acc.nontrivial,
             "outcomes": acc.outcomes.iter().collect::<Vec<_>>(), "found": acc.found,
             "samples": [{"cfg": cfg.short(), "events": "Gaussian pulses (sigma 6*max(1,1/ratio) input frames) at 6 positions incl. chunk boundary +-1; README recipe on one clip"}],
             "extra": {"worst": acc.worst},
@@ -264,7 +296,7 @@ impl Check for C14 {
         crate::frame::replay_by_item(self, replay)
     }
     fn rule(&self, _tier: Tier) -> String {
-        "full product of 7 types x ratio / rate pair x filter length / degree / requested FFT chunk (x sub_chunks) x chunk size x 6 event positions (incl. chunk boundary +-1): |centroid(out) - (n*ratio + output_delay())| <= max(1,ratio)+1, output_delay() read again after every call of the stream; plus the README recipe executed literally on one clip per configuration; asynchronous types also with the ratio changed (no ramp) on the fresh resampler, 6 (ratio, max, relative) triples; representatives of all seven types also after one rejected call (short input channel) on the fresh resampler. Non-trivial = pulse found in the output".into()
+        "full product of 7 types x ratio / rate pair x filter length / degree / requested FFT chunk (x sub_chunks) x chunk size x 6 event positions (incl. chunk boundary +-1): |centroid(out) - (n*ratio + output_delay())| <= max(1,ratio)+1, output_delay() read again after every call of the stream; plus the README recipe executed literally on one clip per configuration; asynchronous types also with the ratio changed (no ramp) on the fresh resampler, 6 (ratio, max, relative) triples; representatives of all seven types also after one rejected call (short input channel) on the fresh resampler, and two-channel representatives after three loud warm-up chunks (changed chunk size, pending ramp) followed by reset(). Non-trivial = pulse found in the output".into()
     }
     fn assumptions(&self) -> Vec<String> {
         vec!["the event is a Gaussian pulse wide enough to be band-limited for every configuration, so its energy centroid is preserved by an ideal resampler".into()]
